@@ -685,7 +685,10 @@ def judge_trace(trace):
             # (d1') channel_ready goes out once per connection
             if "channel_ready" in kinds:
                 if kinds.count("channel_ready") > 1 or s.last_cr_epoch == ep:
-                    bad("d", k, "node %d chan %s released channel_ready twice without reconnecting" % (n, chan))
+                    # after finding F1 (channel_ready re-sent early on reestablish, monitor_pending_channel_ready still
+                    # set) the completion sends it a second time in the same connection
+                    bad("d", k, "node %d chan %s released channel_ready twice without reconnecting" % (n, chan),
+                        key="F1-channel_ready-resent-on-reestablish-before-initial-persist" if getattr(s, "f1_epoch", None) == ep else None)
                 s.last_cr_epoch = ep
             # (b4) channel_ready depends on the initial monitor persist. (funding_signed deliberately does not: the
             # fundee cannot lose money on a funding transaction it has not accepted payment from yet; see the comment
@@ -699,6 +702,8 @@ def judge_trace(trace):
                     dd = rec.get("d")
                     f1 = bool(dd and dd[2] == "channel_reestablish" and dd[1] == n and last_view.get((n, chan), {}).get("ready")
                               and last_view.get((n, chan), {}).get("mip"))
+                    if f1:
+                        s.f1_epoch = ep
                     bad("b", k, "node %d chan %s released channel_ready before the initial ChannelMonitor persist completed%s" % (
                         n, chan, " (on channel_reestablish, channel already in ChannelReady state)" if f1 else ""),
                         key="F1-channel_ready-resent-on-reestablish-before-initial-persist" if f1 else None)
